@@ -80,6 +80,10 @@ func (c CreateProposal) Validate(ctx *action.Context, signedTx action.SignedTx) 
 		return false, governance.ErrInvalidProposalDesc
 	}
 
+	if createProposal.FundingGoal == nil {
+		return false, action.ErrMissingData
+	}
+
 	return true, nil
 }
 
